@@ -558,13 +558,19 @@ fn gen_project(rng: &mut Rng, overlap: bool) -> Proj {
       ("js", 10, vec!["*.ts"]), // a language glob overrides the built-in extension
       ("tsx", 20, vec!["*.js", "*.mjs"]),
       ("rust", 17, vec!["*.rsx"]),
+      // a second key for a language that may already have one (`js`/`javascript`), and globs that
+      // overlap with those of other entries: registration order = sorted by key since 1c5d0c8
+      ("javascript", 10, vec!["*.baz"]),
+      ("typescript", 21, vec!["*.qux", "*.foo"]),
+      ("py", 15, vec!["*.pyz", "*.pyx"]),
     ];
-    let k = 1 + rng.below(2);
+    let k = 1 + rng.below(3);
+    let allow_overlap = rng.chance(1, 3);
     let mut used_keys = BTreeSet::new();
     let mut used_globs: BTreeSet<&str> = BTreeSet::new();
     for _ in 0..k {
       let (key, idx, globs) = rng.pick(&cands).clone();
-      if used_keys.contains(key) || globs.iter().any(|g| used_globs.contains(g)) {
+      if used_keys.contains(key) || (!allow_overlap && globs.iter().any(|g| used_globs.contains(g))) {
         continue;
       }
       used_keys.insert(key);
@@ -579,7 +585,7 @@ fn gen_project(rng: &mut Rng, overlap: bool) -> Proj {
   let mut seen = BTreeSet::new();
   let extra: Vec<(&str, Option<usize>)> = vec![
     ("txt", None), ("foo", Some(21)), ("bar", Some(10)), ("", None), ("TS", Some(21)), ("vue", Some(8)), ("pyx", Some(15)),
-    ("rsx", Some(17)), ("ts.bak", Some(21)),
+    ("rsx", Some(17)), ("ts.bak", Some(21)), ("baz", Some(10)), ("qux", Some(21)), ("pyz", Some(15)),
   ];
   while files.len() < nfiles {
     let dir = rng.pick(&dirs);
@@ -738,7 +744,7 @@ fn proj_args(p: &Proj, occs: &[(String, Option<String>)], filter: &Option<String
     "rules": p.rules.iter().map(urule_json).collect::<Vec<_>>(),
     "occs": occs_json(occs),
     "filter": filter_json(filter, &ids),
-    "langGlobs": p.lang_globs.iter().map(|(_, l, gs)| json!([l, gs])).collect::<Vec<_>>(),
+    "langGlobs": p.lang_globs.iter().map(|(k, l, gs)| json!([k, l, gs])).collect::<Vec<_>>(),
     "gm": gm, "invalid": invalid, "tgm": tgm, "mc": mc, "sup": sup,
   })
 }
@@ -765,10 +771,26 @@ fn hidden_dir(path: &str) -> bool {
 
 /// reference written from the documentation: expected findings and exit code
 fn reference(p: &Proj, occs: &[(String, Option<String>)], filter: &Option<String>, order: &[usize]) -> (Vec<(String, String, usize)>, i32) {
-  reference_with(p, occs, filter, order, false)
+  reference_with(p, occs, filter, order, false, false)
 }
 
-fn reference_with(p: &Proj, occs: &[(String, Option<String>)], filter: &Option<String>, order: &[usize], drop_mixed: bool) -> (Vec<(String, String, usize)>, i32) {
+/// the precedence among `languageGlobs` entries documented since 1c5d0c8: sorted by key
+fn sorted_order(p: &Proj) -> Vec<usize> {
+  let mut order: Vec<usize> = (0..p.lang_globs.len()).collect();
+  order.sort_by(|a, b| p.lang_globs[*a].0.as_bytes().cmp(p.lang_globs[*b].0.as_bytes()));
+  order
+}
+
+/// two `languageGlobs` keys name the same language
+fn alias_keys(p: &Proj) -> bool {
+  let langs: BTreeSet<usize> = p.lang_globs.iter().map(|x| x.1).collect();
+  langs.len() < p.lang_globs.len()
+}
+
+/// `drop_mixed` / `alias_first`: readings of the two recorded findings, only used to *classify* a
+/// failure of the documented reading (`alias_first`: the walker's file types of a language contain
+/// the globs of its first registered `languageGlobs` entry only)
+fn reference_with(p: &Proj, occs: &[(String, Option<String>)], filter: &Option<String>, order: &[usize], drop_mixed: bool, alias_first: bool) -> (Vec<(String, String, usize)>, i32) {
   let re = filter.as_ref().map(|f| regex::Regex::new(f).unwrap());
   let selected: Vec<&URule> = p.rules.iter().filter(|r| re.as_ref().map_or(true, |re| re.is_match(&r.id))).collect();
   if selected.is_empty() && re.is_some() {
@@ -804,7 +826,11 @@ fn reference_with(p: &Proj, occs: &[(String, Option<String>)], filter: &Option<S
     let name = f.path.rsplit('/').next().unwrap();
     let type_match = |l: usize| {
       lang_t(l).exts.iter().chain(extra_exts(l).iter()).any(|e| name.ends_with(&format!(".{e}")))
-        || p.lang_globs.iter().any(|(_, gl, gs)| *gl == l && gs.iter().any(|g| type_glob_matches(g, &f.path)))
+        || if alias_first {
+          order.iter().map(|i| &p.lang_globs[*i]).find(|(_, gl, _)| *gl == l).map_or(false, |(_, _, gs)| gs.iter().any(|g| type_glob_matches(g, &f.path)))
+        } else {
+          p.lang_globs.iter().any(|(_, gl, gs)| *gl == l && gs.iter().any(|g| type_glob_matches(g, &f.path)))
+        }
     };
     // with no enabled rule there is no type filter at all: every non-hidden file is walked (and a
     // file of a known language is then scanned with zero rules: only unused suppressions can show)
@@ -966,17 +992,27 @@ pub fn cli(ctx: &Ctx, rng: &mut Rng, o: &mut Out) {
     }
     let (found, _) = parse_findings(&out);
     let r = if code == HANG { json!("hang") } else { json!({"findings": findings_json(&found), "exit": code}) };
-    let order: Vec<usize> = (0..p.lang_globs.len()).collect();
+    let order = sorted_order(&p);
     let (want, want_exit) = reference(&p, &occs, &filter, &order);
     cases += 1;
     if json!({"findings": findings_json(&want), "exit": want_exit}) != r {
       let class = if code == HANG {
         "hang".to_string()
       } else if mixed_flags(&occs) && {
-        let (w2, e2) = reference_with(&p, &occs, &filter, &order, true);
+        let (w2, e2) = reference_with(&p, &occs, &filter, &order, true, false);
         json!({"findings": findings_json(&w2), "exit": e2}) == r
       } {
         "flags bare-and-id-of-same-severity".to_string()
+      } else if alias_keys(&p) && {
+        let (w2, e2) = reference_with(&p, &occs, &filter, &order, false, true);
+        json!({"findings": findings_json(&w2), "exit": e2}) == r
+      } {
+        "langglobs two-keys-same-language".to_string()
+      } else if alias_keys(&p) && mixed_flags(&occs) && {
+        let (w2, e2) = reference_with(&p, &occs, &filter, &order, true, true);
+        json!({"findings": findings_json(&w2), "exit": e2}) == r
+      } {
+        "langglobs two-keys-same-language + flags bare-and-id-of-same-severity".to_string()
       } else {
         let first = found.iter().find(|x| !want.contains(x)).or_else(|| want.iter().find(|x| !found.contains(x)));
         format!(
@@ -1022,18 +1058,11 @@ pub fn cli(ctx: &Ctx, rng: &mut Rng, o: &mut Out) {
       outcomes.insert(json!({"findings": findings_json(&found), "exit": code}).to_string());
       cases += 1;
     }
-    // documented outcomes for every precedence order of the entries
-    let k = p.lang_globs.len();
-    let mut perms: Vec<Vec<usize>> = vec![];
-    let mut idx: Vec<usize> = (0..k).collect();
-    permute(&mut idx, 0, &mut perms);
-    let allowed: BTreeSet<String> = perms
-      .iter()
-      .map(|ord| {
-        let (w, e) = reference(&p, &[], &None, ord);
-        json!({"findings": findings_json(&w), "exit": e}).to_string()
-      })
-      .collect();
+    // the documented outcome: precedence among the entries = sorted by key (since 1c5d0c8)
+    let allowed: BTreeSet<String> = {
+      let (w, e) = reference(&p, &[], &None, &sorted_order(&p));
+      [json!({"findings": findings_json(&w), "exit": e}).to_string()].into_iter().collect()
+    };
     let distinct_langs: BTreeSet<usize> = p.lang_globs.iter().map(|x| x.1).collect();
     if outcomes.len() > 1 {
       o.oracle("c15-langglobs-overlap", false, json!({"fp": "langglobs overlapping-globs outcome-varies-between-launches", "langGlobs": p.lang_globs.iter().map(|x| json!([x.0, x.2])).collect::<Vec<_>>(), "distinct_outcomes": outcomes.len(), "runs": runs, "languages": distinct_langs}));
